@@ -10,6 +10,66 @@ from ..world import hms_secs
 from nrel.hive.reporting.report_type import ReportType as RT
 
 
+class TariffModel:
+    """the tariff in force per (station, plug), computed from the price table's content alone (+ external changes made through
+    the public API between two cranks, which the plan records)"""
+
+    def __init__(self, spec, sim):
+        self.prices = spec.get("prices")
+        self.cell = {sid: st.position.geoid for sid, st in sim.stations.items()}
+        self.price = {(sid, cid): cs.price_per_kwh for sid, st in sim.stations.items() for cid, cs in st.state.items()}
+        self.alt = {}
+        self.row_i = 0
+        if self.prices is None:
+            # no price file: HIVE's documented default is a table pricing every plug type at 0.0 from time 0
+            self.prices = {"by": "station_id", "rows": [[0, sid, cid, 0.0] for (sid, cid) in sorted(self.price)]}
+
+    def names(self, key, sid):
+        if self.prices["by"] == "station_id":
+            return key == sid
+        try:
+            return h3.h3_to_parent(self.cell[sid], h3.h3_get_resolution(key)) == key
+        except Exception:
+            return False
+
+    def external(self, ops):
+        for o in ops:
+            if o.get("what") == "set_price" and (o["station"], o["charger"]) in self.price:
+                self.price[(o["station"], o["charger"])] = float(o["value"])
+                self.alt.pop((o["station"], o["charger"]), None)
+
+    def advance(self, T):
+        """apply every row with time < T (file order); returns the batch"""
+        batch = []
+        if self.prices is None:
+            return batch
+        rows = self.prices["rows"]
+        while self.row_i < len(rows) and rows[self.row_i][0] < T:
+            batch.append(rows[self.row_i])
+            self.row_i += 1
+        by_plug = {}
+        for (t0, key, plug, val) in batch:
+            for sid in self.cell:
+                if self.names(key, sid) and (sid, plug) in self.price:
+                    by_plug.setdefault((sid, plug), {})[key] = float(val)
+                    self.price[(sid, plug)] = float(val)
+        for k in by_plug:
+            self.alt.pop(k, None)
+        for k, m in by_plug.items():
+            if len(m) > 1:
+                self.alt[k] = set(m.values())
+        return batch
+
+    def acceptable(self, sid, cid, value):
+        want = self.price.get((sid, cid))
+        if want is None or value == want:
+            return True
+        if value in self.alt.get((sid, cid), ()):
+            self.price[(sid, cid)] = value
+            return True
+        return False
+
+
 class C11(Oracle):
     prop = "C11"
 
